@@ -73,6 +73,10 @@ fn main() {
             common::solo_install();
             println!("{}", seqx::overshoot());
         }
+        "sketchbig" => {
+            let cap: u32 = args[2].parse().unwrap();
+            println!("{}", sketchx::aging_big(cap).0);
+        }
         "scalex" => {
             println!("{}", scalex::run(args.get(2).map(|s| s.as_str()).unwrap_or("all")));
         }
@@ -107,6 +111,13 @@ fn main() {
                         println!("      VIOLATED C04 [{sig}]: see the JSON line above");
                         v.push(common::Violation { prop: "C04", sig: sig.into(), detail: String::new(), witness: w.to_string() });
                     }
+                }
+                v
+            } else if w.starts_with("sketchbig|") {
+                let (json, v) = sketchx::aging_big(w.split('|').nth(1).unwrap().parse().unwrap());
+                println!("{json}");
+                for x in &v {
+                    println!("      VIOLATED {} [{}]: {}", x.prop, x.sig, x.detail);
                 }
                 v
             } else if w.starts_with("scalex|") {
